@@ -218,12 +218,22 @@ func runC16(c *core.Ctx, ck *Check) {
 				alt{"vers:" + j.scheme + "/" + strings.Join(parts, "|") + "|", "empty-constraint"},
 				alt{"vers:" + j.scheme + "/" + strings.Join(parts, "||"), "empty-constraint"},
 				alt{"vers:" + j.scheme + "/" + strings.Join(parts, "| |"), "empty-constraint"})
+			type br struct {
+				g  bool
+				e  error
+				pn *eco.Panic
+			}
+			baseRes := make([]br, len(probes))
+			for x, pi := range probes {
+				g, e1, p1 := eco.SafeVersContains(base, p.Strs[pi])
+				baseRes[x] = br{g, e1, p1}
+			}
 			for _, a := range alts {
 				if k >= 2 || a.kind == "whitespace" {
 					w.NT(core.Hash64(j.scheme, base, a.kind))
 				}
-				for _, pi := range probes {
-					g1, e1, p1 := eco.SafeVersContains(base, p.Strs[pi])
+				for x, pi := range probes {
+					g1, e1, p1 := baseRes[x].g, baseRes[x].e, baseRes[x].pn
 					g2, e2, p2 := eco.SafeVersContains(a.text, p.Strs[pi])
 					w.Count("evaluations", 1)
 					w.Count("transform:"+a.kind, 1)
